@@ -62,7 +62,7 @@ ASSUMPTIONS = [
     "environment's observation range [-8, 8]",
     "tanh activations, hidden layouts [3] (quick) and [3], [4,3] (thorough); inputs from a 9-value grid in [-2, 2]",
 ]
-BUDGET_S = {"quick": 1500, "thorough": 5400}  # generous: the wall-clock guard must not trip on a loaded machine
+BUDGET_S = {"quick": 3600, "thorough": 14400}  # generous: the wall-clock guard must not trip on a loaded machine
 SIG = "C17|{}|{}"
 
 # failure-kind vocabulary (fixed)
@@ -118,6 +118,8 @@ def items(tier, seed):
     inits = [0] if quick else [0, 1]
     for ne, no, nf, sh in itertools.product([1, 2, 3], [1, 2, 3], [1, 2], [True, False]):
         for hid, init, bias in itertools.product(hiddens, inits, biases):
+            if quick and nf == 2 and bias in ("p50", "m50"):
+                continue  # quick: the uniform extreme biases only with one input feature
             out.append(
                 dict(
                     name=f"ens-E{ne}-O{no}-F{nf}-{'shared' if sh else 'split'}-H{'x'.join(map(str, hid))}-i{init}-{bias}",
@@ -162,6 +164,9 @@ def items(tier, seed):
     # -- pend
     out.append(dict(name="pend-grid", sec="pend", extended=not quick, seed=seed))
     out.append(dict(name="pend-rollout", sec="pendroll", seed=seed))
+    # long items first (load balance), the many uniform ens items last
+    order = {"tsinf": 0, "mpc": 1, "boot": 2, "iso": 3, "planeval": 4, "pend": 5, "pendroll": 6, "bootrows": 7, "nll": 8, "ens": 9}
+    out.sort(key=lambda it: order[it["sec"]])  # stable: keeps the enumeration order inside a section
     return out
 
 
